@@ -38,6 +38,10 @@ def gen_streams(rng, n):
     out.append(("dup-ns", apci.STARTDT_ACT + apci.i_frame(0, 0, pl(2)) + apci.i_frame(0, 0, pl(2)) + apci.i_frame(1, 0, pl(2))))
     out.append(("skip-ns", apci.STARTDT_ACT + apci.i_frame(0, 0, pl(2)) + apci.i_frame(2, 0, pl(2))))
     out.append(("not-started", apci.i_frame(0, 0, pl(2))))
+    # a wrong N(S) that differs from the expected one in a single bit of the 15-bit number (every bit, expected 0 and 1)
+    for j in range(15):
+        out.append(("ns-bit%d-at0" % j, apci.STARTDT_ACT + apci.i_frame(1 << j, 0, pl(2)) + apci.i_frame(0, 0, pl(3))))
+        out.append(("ns-bit%d-at1" % j, apci.STARTDT_ACT + apci.i_frame(0, 0, pl(2)) + apci.i_frame(1 ^ (1 << j), 0, pl(3)) + apci.i_frame(1, 0, pl(1))))
     out.append(("len1", bytes([0x68, 0x01, 0x07]) + apci.STARTDT_ACT))
     out.append(("maxlen", apci.STARTDT_ACT + apci.i_frame(0, 0, apci.asdu(200, 3, 1, bytes(243)))))
     out.append(("len255", apci.STARTDT_ACT + bytes([0x68, 0xff, 0x00, 0x00, 0x00, 0x00]) + apci.asdu(200, 3, 1, bytes(245))))
@@ -54,7 +58,7 @@ def gen_streams(rng, n):
             elif r < 15:
                 fr.append(apci.s_frame(0))
             elif r < 16:
-                fr.append(apci.i_frame(ns + rng.choice([1, 2, 32767]), 0, pl(2)))
+                fr.append(apci.i_frame((ns + rng.choice([1, 2, 32767, 128, 256, 8192, 16384])) % 32768, 0, pl(2)))
             elif r < 17:
                 fr.append(bytes([0x68, rng.choice([0, 1, 2, 3])]) + rng.bytes(rng.below(4)))
             elif r < 18:
@@ -189,7 +193,7 @@ def run(ck):
             ck.sample({"stream": data.hex(), "chunks": [len(c) for c in ch], "server_calls": rs.get(sid, {}).get("out", [])[:4]})
     # ---- trace level: full server under segmentation
     tr_scripts, tmeta = [], {}
-    for tag, data in [x for x in streams if standard_frames_only(x[1])][: (25 if quick else 200)]:
+    for tag, data in [x for x in streams if standard_frames_only(x[1])][: (50 if quick else 240)]:
         nfr = len(apci.split_stream(data)[0]) + 3
         for ci, ch in enumerate(chunkings(rng, data, 24 if quick else 120, 2)):
             sid = "%s.t%d" % (tag, ci)
